@@ -584,8 +584,8 @@ def run(ctx):
         ran.append(c)
         impl.append(segm)
         ctx.stat('kinds', c['kind'])
-        ctx.stat('layout', '/'.join(c['layout'][k] for k in ('data', 'thr', 'mask'))
-                 if len(set(c['layout'].values())) > 1 else c['layout']['data'])
+        ctx.stat('layout', 'mixed(data/threshold/mask differ)' if len(set(c['layout'].values())) > 1
+                 else c['layout']['data'])
         ctx.stat('result', 'None' if segm is None else 'segments')
         nontrivial = len(components(c)) > 0
         ctx.count_case(describe(c), nontrivial)
